@@ -24,7 +24,10 @@ Inductive cop :=
 | CKilledCreate (p : plan)        (* Create in a child process that was killed at a random instant *)
 | CCreateStage (n : nat) (p : plan)   (* cosmosdb Create with an injected fault: 0 = plan batch fails, 1 = search batch fails,
                                          3 = ReadItem fails with a non-404 error (the Exists pre-check) *)
-| CDeleteStage (n : nat) (id : uid)   (* cosmosdb Delete with an injected fault: 0 = plan batch fails *)
+| CDeleteStage (n : nat) (id : uid)   (* cosmosdb Delete with an injected fault: 0 = plan batch fails, 1 = search batch fails *)
+| CUpdatePlanStage (n : nat) (id : uid) (rs : reason) (st : state) (sub : Z)   (* cosmosdb UpdatePlan, 1 = search batch fails *)
+| CSetBadType (ty : N)                (* from now on the registry's plugins declare another response type: an attempt
+                                         whose (non-nil) response has Go type index ty cannot be decoded; 0 = as before *)
 | CUpdatePlan (id : uid) (rs : reason) (st : state) (sub : Z)
 | CUpdateBlock (pid id : uid) (st : state)
 | CUpdateChecks (pid id : uid) (st : state)
@@ -46,7 +49,15 @@ Record case := {
   k_items : list (plan * list row) }.       (* cosmosdb: a plan and the items VerifPlanItems emitted for it (codes blanked) *)
 
 (* an operation, possibly with an injected fault *)
-Inductive xop := XOp (o : op) | XCreateStage (n : nat) (p : spln) | XDeleteStage (n : nat) (id : uid).
+Inductive xop := XOp (o : op) | XCreateStage (n : nat) (p : spln) | XDeleteStage (n : nat) (id : uid)
+                | XUpdatePlanStage (n : nat) (id : uid) (rs : reason) (st : state) (sub : Z) | XSetBad (ty : N).
+
+(* the decoder of a registry in which the response type with index [bad] was replaced (0 = none) *)
+Definition dec_att_bad (bad : N) (t : tok) (c : code) : option attempt :=
+  match c with
+  | CAtt a => if negb (N.eqb bad 0) && negb (bl_nil (at_resp a)) && N.eqb (bl_ty (at_resp a)) bad then None else Some a
+  | _ => None
+  end.
 
 Record vault := {
   v_st : Type;
@@ -57,36 +68,49 @@ Record vault := {
   v_exists : uid -> v_st -> bool;
   v_search : uid -> v_st -> bool }.
 
+Definition on_fst {A B} (m : A -> A * bool) (s : A * B) : (A * B) * bool :=
+  let (a, ok) := m (fst s) in ((a, snd s), ok).
+
 Definition sqlite_vault : vault :=
-  {| v_st := db; v_init := [];
-     v_step := fun x => match x with
-                        | XOp o => SqliteModel.step enc_req0 dec_req0 enc_att0 dec_att0 o
-                        | XCreateStage _ p => SqliteModel.create enc_req0 enc_att0 p
-                        | XDeleteStage _ id => SqliteModel.delete dec_req0 dec_att0 id
-                        end;
-     v_read := SqliteModel.read dec_req0 dec_att0;
-     v_count := count_rows;
-     v_exists := SqliteModel.exists_plan;
+  {| v_st := (db * N)%type; v_init := ([], 0%N);
+     v_step := fun x s =>
+                 let dec := dec_att_bad (snd s) in
+                 match x with
+                 | XOp o => on_fst (SqliteModel.step enc_req0 dec_req0 enc_att0 dec o) s
+                 | XCreateStage _ p => on_fst (SqliteModel.create enc_req0 enc_att0 p) s
+                 | XDeleteStage _ id => on_fst (SqliteModel.delete dec_req0 dec id) s
+                 | XUpdatePlanStage _ id rs st sub => on_fst (SqliteModel.step enc_req0 dec_req0 enc_att0 dec (OUpdatePlan id rs st sub)) s
+                 | XSetBad ty => ((fst s, ty), true)
+                 end;
+     v_read := fun id s => SqliteModel.read dec_req0 (dec_att_bad (snd s)) id (fst s);
+     v_count := fun k pid s => count_rows k pid (fst s);
+     v_exists := fun id s => SqliteModel.exists_plan id (fst s);
      v_search := fun _ _ => false |}.
 
 Definition cosmos_vault : vault :=
-  {| v_st := cdb; v_init := ([], []);
-     v_step := fun x => match x with
-                        | XOp o => CosmosModel.step enc_req0 dec_req0 enc_att0 dec_att0 o
-                        | XCreateStage 3 p => CosmosModel.create_readerr p
-                        | XCreateStage n p => CosmosModel.create_stage enc_req0 dec_req0 enc_att0 dec_att0 n p
-                        | XDeleteStage n id => CosmosModel.delete_stage dec_req0 dec_att0 n id
-                        end;
-     v_read := CosmosModel.read dec_req0 dec_att0;
-     v_count := fun k pid c => count_rows k pid (fst c);
-     v_exists := fun id c => CosmosModel.exists_plan id (fst c);
-     v_search := fun id c => memb id (snd c) |}.
+  {| v_st := (cdb * N)%type; v_init := (([], []), 0%N);
+     v_step := fun x s =>
+                 let dec := dec_att_bad (snd s) in
+                 match x with
+                 | XOp o => on_fst (CosmosModel.step enc_req0 dec_req0 enc_att0 dec o) s
+                 | XCreateStage 3 p => on_fst (CosmosModel.create_readerr p) s
+                 | XCreateStage n p => on_fst (CosmosModel.create_stage enc_req0 dec_req0 enc_att0 dec n p) s
+                 | XDeleteStage n id => on_fst (CosmosModel.delete_stage dec_req0 dec n id) s
+                 | XUpdatePlanStage n id rs st sub => on_fst (CosmosModel.updatePlan_stage n id rs st sub) s
+                 | XSetBad ty => ((fst s, ty), true)
+                 end;
+     v_read := fun id s => CosmosModel.read dec_req0 (dec_att_bad (snd s)) id (fst s);
+     v_count := fun k pid s => count_rows k pid (fst (fst s));
+     v_exists := fun id s => CosmosModel.exists_plan id (fst (fst s));
+     v_search := fun id s => memb id (snd (fst s)) |}.
 
 Definition to_op (c : cop) : option xop :=
   match c with
   | CCreate p | CKilledCreate p => option_map (fun q => XOp (OCreate q)) (of_plan p)
   | CCreateStage n p => option_map (XCreateStage n) (of_plan p)
   | CDeleteStage n id => Some (XDeleteStage n id)
+  | CUpdatePlanStage n id rs st sub => Some (XUpdatePlanStage n id rs st sub)
+  | CSetBadType ty => Some (XSetBad ty)
   | CUpdatePlan id rs st sub => Some (XOp (OUpdatePlan id rs st sub))
   | CUpdateBlock pid id st => Some (XOp (OUpdateBlock pid id st))
   | CUpdateChecks pid id st => Some (XOp (OUpdateChecks pid id st))
